@@ -496,8 +496,22 @@ func runC07(b *runner.Batch) {
 	if b.Thorough() {
 		nops = 300
 	}
+	epoch := int64(0)
 	for i := 0; i < nops && b.NViolations() == 0; i++ {
 		e.execCandidateOp(e.genC07())
+		if b.Rng.IntN(20) == 0 {
+			// an epoch tick is none of the six operations: it publishes the candidates and leaves both lists as they are
+			// (seeded change C07-12: the tick drops the legacy record of a key that also has a structured one)
+			epoch++
+			r := e.w.Invoke(e.w.Alpha(), e.nm, "newEpoch", epoch)
+			b.Tx(1)
+			if !r.Halted() {
+				b.Violation(fmt.Sprintf("newEpoch(%d) by the Alphabet failed in the middle of a candidate history: %s", epoch, r.Fault), e.detail([]*world.TxResult{r}, nil))
+				break
+			}
+			e.checkCandidates([]*world.TxResult{r})
+			b.Hit("candidate-lists-read-after-an-epoch-tick")
+		}
 	}
 	if b.Index < 2 {
 		h := b.HistoryFn()
